@@ -703,10 +703,12 @@ class SqlCursor:
             return
         fr = I.frames[-1]
         ok, why = scan_row_loop(st, fr)
-        I.ctx.site_obligs.append((f"row_loop_frame[{fr.fi.name}:{st.lineno - fr.fi.node.lineno}]", ok, len(I.ctx.pc)))
         if not ok:
+            # the side condition of the loop rule is not met: the rule does not apply and the path is undecided -
+            # not a refutation of anything (a harmless refactoring of the loop body must not raise an alarm)
             I.ctx.notes.append(("row_loop_frame_detail", why))
             raise Outside("per-row loop rule not applicable: " + why)
+        I.ctx.site_obligs.append((f"row_loop_frame[{fr.fi.name}:{st.lineno - fr.fi.node.lineno}]", ok, len(I.ctx.pc)))
         n, rowkey, idx = rs.as_seq()
         istar = z3.Int(I.ctx.fresh_name("i*"))
         key = rs.use_index(istar)
@@ -794,6 +796,8 @@ def scan_row_loop(st, fr):
             if isinstance(n, ast.Call):
                 f = n.func
                 if isinstance(f, ast.Attribute):
+                    if isinstance(f.value, ast.Name) and f.value.id in ("self", "cls") and _pure_builder(fr, f.attr):
+                        continue  # a private helper of the same class that only builds and returns an object
                     if not (isinstance(f.value, ast.Name) and f.attr == "append" and f.value.id not in bound):
                         bad.append(f"call {ast.unparse(f)}")
                 elif isinstance(f, ast.Name):
@@ -804,6 +808,41 @@ def scan_row_loop(st, fr):
     if st.orelse:
         bad.append("for-else")
     return (not bad), "; ".join(bad)
+
+
+def _pure_builder(fr, name):
+    """Is `self.<name>` a method of the frame's class whose body only binds its own locals, builds new objects (calls
+    of capitalised names), sets attributes of its own locals, asserts and returns?  Such a helper extracted from a
+    per-row loop body keeps the body inside the frame of the rule (it is executed from source like the body)."""
+    import ast
+    cls = getattr(fr.fi, "cls", None)
+    fi = None
+    for c in (cls.mro() if cls is not None else []):
+        fi = getattr(c, "methods", {}).get(name)
+        if fi is not None:
+            break
+    if fi is None or fi.is_async or fi.opaque_decorators:
+        return False
+    params = {a.arg for a in fi.node.args.args + fi.node.args.kwonlyargs} - {"self", "cls"}
+    local = set(params)
+    for n in ast.walk(fi.node):
+        if isinstance(n, ast.Name) and isinstance(n.ctx, ast.Store):
+            local.add(n.id)
+    for s in fi.node.body:
+        for n in ast.walk(s):
+            if isinstance(n, (ast.Break, ast.Continue, ast.Raise, ast.Try, ast.While, ast.For, ast.If, ast.With, ast.Global,
+                              ast.Nonlocal, ast.Await, ast.Yield, ast.Lambda, ast.Delete, ast.AugAssign)):
+                return False
+            if isinstance(n, ast.Attribute) and isinstance(n.ctx, ast.Store):
+                if not (isinstance(n.value, ast.Name) and n.value.id in local - params):
+                    return False
+            if isinstance(n, ast.Subscript) and isinstance(n.ctx, ast.Store):
+                return False
+            if isinstance(n, ast.Call):
+                f = n.func
+                if not (isinstance(f, ast.Name) and (f.id in ("isinstance", "str", "int", "bytes", "tuple") or f.id[:1].isupper())):
+                    return False
+    return True
 
 
 class SqlConn:
